@@ -16,6 +16,7 @@
 #include <signal.h>
 #include <string.h>
 #include <sys/socket.h>
+#include <sys/stat.h>
 #include <sys/time.h>
 #include <sys/wait.h>
 #include <unistd.h>
@@ -23,6 +24,7 @@
 #include <algorithm>
 #include <set>
 #include <string>
+#include <thread>
 #include <vector>
 
 #include "Process.hh"
@@ -102,6 +104,19 @@ struct Sim {
   uint64_t quiet_calls = 0;
   uint64_t read_by_index[8] = {0, 0, 0, 0, 0, 0, 0, 0}; // bytes the parent has read per pipe descriptor (creation order)
   uint64_t unread_stdout_at_exit = 0; // consecutive parent calls during which nothing in the world changed
+  // a periodic signal with a handler (an interval timer, say) is delivered to the calling process: a poll()
+  // that would sleep across a tick returns EINTR at the tick
+  uint64_t heartbeat_us = 0;
+  // another thread of the calling process opens a descriptor of its own right after the code under test closed
+  // one (it gets the lowest free number, usually the one just released); it must survive the call
+  uint32_t foreign_den = 0;
+  std::vector<int> foreign_fds;
+  string foreign_failure;
+  // another thread of the calling process runs a whole run_process of its own while this call is parked at the
+  // return of its k-th successful read()
+  unsigned intruder_at = 0, read_returns = 0;
+  bool intruder_ran = false;
+  string intruder_failure;
 };
 
 Sim g;
@@ -319,9 +334,54 @@ uint64_t fd_index(int fd) {
   return 99;
 }
 
+void run_intruder();
+
 bool is_nonblocking(int fd) {
   int fl = fcntl(fd, F_GETFL, 0);
   return fl >= 0 && (fl & O_NONBLOCK);
+}
+
+// The second caller: a real thread that runs a complete, unsimulated run_process (a real /bin/echo) while the
+// call under test is parked. Its timing is the operating system's, but nothing of it enters the event log and
+// its result is fixed, so the run stays a function of the tape.
+void run_intruder() {
+  bool was_armed = g.armed;
+  g.armed = false;
+  g.intruder_ran = true;
+  string text(3000 + 17 * (g.read_returns % 7), 'B');
+  text += "<end of the second caller's text>";
+  std::thread t([&]() {
+    try {
+      auto r = phosg::run_process({"/bin/echo", "-n", text}, nullptr, true, nullptr, nullptr, 0);
+      if (r.stdout_contents != text) g.intruder_failure = "its run_process of /bin/echo returned " + std::to_string(r.stdout_contents.size()) + " bytes of stdout that are not the " + std::to_string(text.size()) + " bytes echo wrote";
+      else if (!r.stderr_contents.empty()) g.intruder_failure = "its run_process of /bin/echo returned " + std::to_string(r.stderr_contents.size()) + " bytes of stderr although echo wrote none";
+    } catch (const std::exception& e) {
+      g.intruder_failure = string("its run_process of /bin/echo threw: ") + e.what();
+    }
+  });
+  t.join();
+  g.armed = was_armed;
+  ev("second_caller.done");
+  VS_FAULT("second_caller_during_read");
+}
+
+// Closes the other thread's descriptors again; any that did not survive the call is recorded.
+void finish_foreign() {
+  static dev_t null_dev = [] {
+    struct stat st;
+    return stat("/dev/null", &st) == 0 ? st.st_rdev : (dev_t)0;
+  }();
+  for (size_t i = 0; i < g.foreign_fds.size(); i++) {
+    int fd = g.foreign_fds[i];
+    struct stat st;
+    bool intact = fstat(fd, &st) == 0 && S_ISCHR(st.st_mode) && st.st_rdev == null_dev;
+    if (!intact && g.foreign_failure.empty()) {
+      g.foreign_failure = "a descriptor that another thread opened during the call (number " + string(i == 0 ? "just released by the call" : "released earlier by the call") +
+          ") was closed or replaced by the call: it closed a descriptor number it no longer owned";
+    }
+    if (intact) __real_close(fd);
+  }
+  g.foreign_fds.clear();
 }
 
 } // namespace
@@ -405,6 +465,15 @@ int __wrap_poll(struct pollfd* pfds, nfds_t n, int timeout_ms) {
   }
   bool has_deadline = timeout_ms >= 0;
   uint64_t deadline = g.clock + (uint64_t)std::max(timeout_ms, 0) * 1000;
+  bool tick_first = false;
+  if (g.heartbeat_us) {
+    uint64_t tick = (g.clock / g.heartbeat_us + 1) * g.heartbeat_us;
+    if (!has_deadline || tick < deadline) {
+      tick_first = true;
+      has_deadline = true;
+      deadline = tick;
+    }
+  }
   for (;;) {
     int r = __real_poll(pfds, n, 0);
     if (r != 0 || timeout_ms == 0) {
@@ -414,7 +483,7 @@ int __wrap_poll(struct pollfd* pfds, nfds_t n, int timeout_ms) {
       ev("poll.ret", (uint64_t)(int64_t)r, summary);
       return r;
     }
-    if (n == 0 && !has_deadline) {
+    if (n == 0 && timeout_ms < 0) {
       sim_fail("deadlock", "poll_on_nothing", "poll() with no descriptors and no timeout never returns");
       return 0;
     }
@@ -422,6 +491,12 @@ int __wrap_poll(struct pollfd* pfds, nfds_t n, int timeout_ms) {
     if (g.gave_up) return __real_poll(pfds, n, 0);
     if (p == DEADLINE) {
       int rr = __real_poll(pfds, n, 0);
+      if (tick_first && rr == 0) {
+        VS_FAULT("EINTR@poll(periodic_signal)");
+        ev("poll.EINTR.tick");
+        errno = EINTR;
+        return -1;
+      }
       ev("poll.timeout", (uint64_t)(int64_t)rr);
       VS_PROBE("poll_timed_out");
       return rr;
@@ -479,6 +554,7 @@ ssize_t __wrap_read(int fd, void* buf, size_t n) {
     g.quiet_calls = 0;
     if (fd_index(fd) < 8) g.read_by_index[fd_index(fd)] += r;
     hash_bytes(buf, r);
+    if (g.intruder_at && ++g.read_returns == g.intruder_at) run_intruder();
   }
   errno = e;
   return r;
@@ -571,6 +647,14 @@ int __wrap_close(int fd) {
   g.quiet_calls = 0;
   int r = __real_close(fd);
   g.ch.maybe_unblocked = true;
+  if (g.foreign_den && !g.gave_up && g.foreign_fds.size() < 6 && chance(1, g.foreign_den, "foreign.open")) {
+    int nf = open("/dev/null", O_RDONLY | O_CLOEXEC);
+    if (nf >= 0) {
+      g.foreign_fds.push_back(nf);
+      ev("foreign.open", nf == fd);
+      VS_FAULT("other_thread_reuses_fd_number");
+    }
+  }
   return r;
 }
 
@@ -842,6 +926,9 @@ void draw_environment() {
   // (close(stdin_write_fd) with stdin_write_fd == 1). That is an observation about callers without any
   // standard descriptors, which C15 does not quantify over (DESIGN.md 10), so it is not generated.
   g.close_fd0 = choose(8, "parent.fd0_closed") == 7 ? 1 + choose(2, "parent.fd_mask") : 0;
+  if (choose(8, "parent.heartbeat") == 7) g.heartbeat_us = pick({100000, 300000, 10000}, "parent.heartbeat.period");
+  if (choose(4, "parent.other_thread_opens") == 3) g.foreign_den = (uint32_t)pick({1, 2}, "parent.other_thread_opens.rate");
+  if (choose(8, "parent.second_caller") == 7) g.intruder_at = 1 + choose(6, "parent.second_caller.at");
 }
 
 // Runs the armed section with the process's descriptor 0 closed (and puts it back afterwards), so that
@@ -968,6 +1055,7 @@ void scen_run_process() {
       what = e.what();
     }
     g.armed = false;
+    finish_foreign();
   }
   if (exec_fails) __fpurge(stdout); // drop the marker text again
   set_context("");
@@ -1035,6 +1123,8 @@ void scen_run_process() {
   }
   (void)timed_out_expected;
 
+  if (!g.foreign_failure.empty()) fail("run_process/closed_descriptor_it_does_not_own", threw ? "exception_path" : "normal_path", g.foreign_failure);
+  if (g.intruder_ran && !g.intruder_failure.empty()) fail("run_process/second_caller_disturbed", s.family, "a second thread called run_process while this call was parked at the return of a read(): " + g.intruder_failure);
   // descriptors: whatever path was taken, the call must not leave any behind
   if (fds_after != fds_before) {
     std::vector<int> extra;
@@ -1093,6 +1183,7 @@ void scen_communicate() {
     harness_bug(string("Subprocess construction failed: ") + e.what());
   }
   g.armed = false;
+  finish_foreign();
   set_context("");
   Child& c = g.ch;
   {
@@ -1107,6 +1198,8 @@ void scen_communicate() {
   if (already_failed || failed()) throw AbortRun();
 
   int expected_status = c.death_kind == 1 ? (c.death_value << 8) : c.death_value;
+  if (!g.foreign_failure.empty()) fail("communicate/closed_descriptor_it_does_not_own", threw ? "exception_path" : "normal_path", g.foreign_failure);
+  if (g.intruder_ran && !g.intruder_failure.empty()) fail("communicate/second_caller_disturbed", s.family, "a second thread called run_process while communicate was parked at the return of a read(): " + g.intruder_failure);
   if (threw) {
     bool is_timeout = what.find("timed out") != string::npos;
     if (!is_timeout) fail("communicate/unexpected_exception", s.family, "communicate threw '" + what.substr(0, 120) + "'");
@@ -1183,6 +1276,7 @@ void scen_lifecycle() {
     what = e.what();
   }
   g.armed = false;
+  finish_foreign();
   set_context("");
   Child& c = g.ch;
   {
@@ -1204,6 +1298,7 @@ void scen_lifecycle() {
     }
     VS_PROBE("destructor_ended_running_child");
   }
+  if (!g.foreign_failure.empty()) fail("lifecycle/closed_descriptor_it_does_not_own", "lifecycle", g.foreign_failure);
   if (threw) fail("lifecycle/unexpected_exception", s.family, "Subprocess life cycle threw '" + what.substr(0, 120) + "'");
   int expected_status = c.death_kind == 1 ? (c.death_value << 8) : c.death_value;
   if (close_stdin_and_wait) {
@@ -1286,6 +1381,6 @@ int main(int argc, char** argv) {
       {"scheduling between parent and child, clock, poll timeouts, EINTR/EAGAIN/short transfers", "simulator (link-time wrappers in engines/sim_proc.cc)"}};
   e.expected_probes = {"payload_larger_than_pipe", "output_larger_than_pipe", "clock_jumped_over_child_sleep", "poll_timed_out", "blocking_waitpid", "timeout_killed_child", "check_threw_on_nonzero_status",
       "child_died_by_own_signal", "child_exited_with_unread_output_in_pipe", "communicate_with_deadline_returned", "communicate_without_deadline_returned", "communicate_deadline_passed", "parent_busy_wait_skipped", "lifecycle_waited", "destructor_killed_running_child", "destructor_found_child_exited", "run_process_called_repeatedly", "grandchild_kept_pipes_open", "sigkill_after_ignored_sigterm", "destructor_ended_running_child", "caller_without_descriptor_0", "caller_without_descriptor_1", "exec_failed_in_child"};
-  e.expected_faults = {"EINTR@poll", "EINTR@waitpid", "spurious_EAGAIN@read", "spurious_EAGAIN@write", "short_read", "short_write", "parent_stall"};
+  e.expected_faults = {"EINTR@poll", "EINTR@waitpid", "spurious_EAGAIN@read", "spurious_EAGAIN@write", "short_read", "short_write", "parent_stall", "EINTR@poll(periodic_signal)", "other_thread_reuses_fd_number", "second_caller_during_read"};
   return driver_main(argc, argv, e);
 }
